@@ -249,6 +249,23 @@ func genesisRejections(w *World, root *ssa.Function) []rejection {
 				key = "!" + key
 			}
 			_ = key
+			// a predicate extracted into a bool-returning helper means what the helper's own deciding tests mean: the
+			// conditions inside it one of whose edges always returns the rejecting answer
+			if c, ok := base.(*ssa.Call); ok {
+				if h := boolHelper(c); h != nil {
+					if ds := boolDeciders(h, rejOnTrue); len(ds) > 0 {
+						for _, d := range ds {
+							field, kind := classifyRejection(d.cond, d.neg)
+							k2 := "structural condition (no field of a module type)"
+							if field != "" {
+								k2 = field + " " + kind
+							}
+							out = append(out, rejection{Fn: h, If: d.i, Key: k2, Cond: d.cond, Neg: d.neg})
+						}
+						continue
+					}
+				}
+			}
 			field, kind := classifyRejection(base, !rejOnTrue)
 			k2 := "structural condition (no field of a module type)"
 			if field != "" {
@@ -476,4 +493,65 @@ func checkVerbatim(w *World, r *Report, rule string, inits []*ssa.Function) {
 			r.OK(rule, funcName(fn)+": genesis data is stored as given", w.Pos(fn.Pos()), "no field of the GenesisState parameter or of a copy of its parts is assigned")
 		}
 	}
+}
+
+type boolDecider struct {
+	i    *ssa.If
+	cond ssa.Value
+	neg  bool // the deciding edge is the false edge of cond
+}
+
+// boolDeciders: the tests of a bool-returning helper one of whose edges leads, on every path, to `return want`
+// (and the other does not).
+func boolDeciders(h *ssa.Function, want bool) []boolDecider {
+	always := func(b *ssa.BasicBlock) bool {
+		seen := map[*ssa.BasicBlock]bool{}
+		ok := true
+		n := 0
+		var walk func(b *ssa.BasicBlock)
+		walk = func(b *ssa.BasicBlock) {
+			if seen[b] || !ok {
+				return
+			}
+			seen[b] = true
+			if len(b.Instrs) > 0 {
+				if ret, isRet := b.Instrs[len(b.Instrs)-1].(*ssa.Return); isRet {
+					rv := retVals(ret)
+					v, isConst := constBool(rv[0])
+					if !isConst || v != want {
+						ok = false
+					}
+					n++
+					return
+				}
+			}
+			for _, s := range b.Succs {
+				walk(s)
+			}
+		}
+		walk(b)
+		return ok && n > 0
+	}
+	var out []boolDecider
+	for _, b := range h.Blocks {
+		i := blockIf(b)
+		if i == nil {
+			continue
+		}
+		t, f := always(b.Succs[0]), always(b.Succs[1])
+		if t == f {
+			continue
+		}
+		if strings.Contains(b.Comment, "loop") {
+			// the exhaustion of a search loop decides "not found": that is the predicate itself, not a test inside it
+			return nil
+		}
+		base, neg := stripNot(i.Cond)
+		onTrue := t
+		if neg {
+			onTrue = !onTrue
+		}
+		out = append(out, boolDecider{i: i, cond: base, neg: !onTrue})
+	}
+	return out
 }
